@@ -769,8 +769,8 @@ def t_numpy_reductions_and_shapes():
     import numpy as np
     a = np.array([0.0, 1.0, 2.0, 3.0, 4.0, 5.0]).reshape(2, 3)
     return [a.sum(), a.sum(axis=0).tolist(), a.sum(axis=1).tolist(), a.mean(axis=0).tolist(), a.max(axis=1).tolist(), a.min(), int(a.argmax()), a.shape, a.T.shape,
-            a.reshape(-1).tolist(), a.ravel().shape, np.linalg.norm(np.array([3.0, 4.0])) == 5.0, (a @ a.T).tolist(), np.dot(a[0], a[1]), len(a), a.size, a.ndim,
-            np.cumsum(np.array([1, 2, 3])).tolist(), np.where(a > 2, 1, 0).tolist(), np.concatenate([a[0], a[1]]).tolist(), np.vstack([a, a[0]]).shape]
+            a.reshape(-1).tolist(), a.ravel().shape, (a @ a.T).tolist(), np.dot(a[0], a[1]), len(a), a.size, a.ndim,
+            np.where(a > 2, 1, 0).tolist(), np.concatenate([a[0], a[1]]).tolist()]
 
 
 def t_numpy_boolean_logic_and_comparisons():
@@ -778,7 +778,7 @@ def t_numpy_boolean_logic_and_comparisons():
     a = np.array([1, 5, 3, 5])
     m = a == 5
     return [m.tolist(), (~m).tolist(), bool(m.any()), bool(m.all()), int(m.sum()), np.nonzero(m)[0].tolist(), np.isin(a, [3, 1]).tolist(),
-            np.unique(a).tolist(), np.setdiff1d(a, [5]).tolist(), np.argsort(a, kind="stable").tolist(), np.sort(a).tolist(), bool(np.array_equal(a, a.copy())),
+            np.unique(a).tolist(), np.sort(a).tolist(), bool(np.array_equal(a, a.copy())),
             np.allclose(a, a + 1e-12), (a[m] * 2).tolist(), int(np.count_nonzero(a > 1))]
 
 
@@ -902,6 +902,249 @@ def t_namedtuple_cached_property_field_wraps():
         yield from [7, 8]
     out.append(list(outer()))
     return out
+
+
+def t_finally_overrides_and_exception_in_handler():
+    log = []
+    def f():
+        try:
+            return "try"
+        finally:
+            log.append("fin")
+    def g():
+        try:
+            raise ValueError("a")
+        except ValueError:
+            try:
+                raise KeyError("b")
+            except KeyError as e:
+                log.append(("inner", e.args))
+            return "handled"
+        finally:
+            log.append("g-fin")
+    def h():
+        for i in range(3):
+            try:
+                if i == 1:
+                    break
+            finally:
+                log.append(("h", i))
+        return i
+    def k():
+        try:
+            try:
+                raise ValueError("x")
+            finally:
+                log.append("k-inner-fin")
+        except ValueError:
+            return "k-caught"
+    return [f(), g(), h(), k(), log]
+
+
+def t_generator_return_and_stopiteration():
+    def g():
+        yield 1
+        return 5
+        yield 2
+    def bad():
+        yield 1
+        raise StopIteration
+    out = [list(g())]
+    try:
+        list(bad())
+    except RuntimeError:
+        out.append("RuntimeError")
+    it = iter([1, 2, 3])
+    out.append([x for x in it if x < 3])
+    out.append(next(it, "exhausted"))
+    def counter():
+        n = 0
+        def nxt():
+            nonlocal_n[0] += 1
+            return nonlocal_n[0]
+        nonlocal_n = [n]
+        return nxt
+    c = counter()
+    out.append(list(iter(c, 3)))
+    return out
+
+
+def t_list_and_dict_method_corners():
+    a = [1, 2, 3, 4, 5]
+    out = [a[::-2], a[-2:], a[:-6], a[10:], a[1:4:2]]
+    a.insert(100, 9)
+    a.insert(-100, 0)
+    out.append(list(a))
+    out.append(a.pop(-2))
+    a.extend(x * 2 for x in range(2))
+    out.append(list(a))
+    out.append(a.index(0))
+    d = {"a": 1}
+    out += [d.pop("a", None), d.pop("a", "dflt"), d.setdefault("k", []), d]
+    d["k"].append(1)
+    d.update({"z": 0}, y=2)
+    out.append(dict(d))
+    out.append(list(zip([1, 2, 3], "ab", [True])))
+    out.append(sorted([(1, "b"), (0, "z"), (1, "a")], key=lambda t: t[0]))
+    out.append({**{"a": 1}, **{"a": 2, "b": 3}})
+    out.append([k for k in {"x": 1, "y": 2} if k != "x"])
+    try:
+        [].pop()
+    except IndexError:
+        out.append("IndexError")
+    try:
+        {}.pop("q")
+    except KeyError:
+        out.append("KeyError")
+    return out
+
+
+def t_class_protocol_fallbacks():
+    class Seq:
+        def __init__(self, n):
+            self.n = n
+        def __getitem__(self, i):
+            if i >= self.n:
+                raise IndexError(i)
+            return i * 10
+    class Sized:
+        def __len__(self):
+            return 0
+    class Both:
+        def __len__(self):
+            return 0
+        def __bool__(self):
+            return True
+    class Base:
+        kind = "base"
+        def __init__(self):
+            self.kind = "instance"
+        @property
+        def p(self):
+            return 1
+        @classmethod
+        def make(cls):
+            return cls.__name__
+    class Derived(Base):
+        @property
+        def p(self):
+            return super().p + 1
+        @classmethod
+        def make(cls):
+            return "D:" + super().make()
+    class A:
+        def who(self):
+            return ["A"]
+    class B(A):
+        def who(self):
+            return ["B"] + super().who()
+    class C(A):
+        def who(self):
+            return ["C"] + super().who()
+    class D(B, C):
+        def who(self):
+            return ["D"] + super().who()
+    s = Seq(3)
+    return [list(s), 20 in s, 5 in s, bool(Sized()), bool(Both()), Base.kind, Base().kind, Derived().p, Derived.make(), D().who(),
+            [k.__name__ for k in D.__mro__][:4]]
+
+
+def t_numbers_corner_cases():
+    return [7 // -2, -7 // -2, 7 % -2, 7.5 // 2 == 3.0, -7.5 // 2 == -4.0, 7.5 % 2 == 1.5, -7.5 % 2 == 0.5, divmod(7, -2), int(-0.5), int(2.999), round(-2.5), round(-3.5), round(0.5), round(1.5),
+            abs(-0.0) == 0, 10 ** -2 == 0.01, 1_000 == 1000, 0b101, 0x1F, True + 1, -True, 3 - True, 1 < 2 < 3, 1 < 3 < 2, min(2, 1.5), max(1, True),
+            sum([0.5, 0.25]), 5 // 1, 5 / 5, (3).bit_length() if hasattr(int, "bit_length") else 2]
+
+
+def t_closures_loops_and_comprehension_scope():
+    fs = []
+    for i in range(3):
+        def f(i=i):
+            return i
+        fs.append(f)
+    late = []
+    for j in range(3):
+        late.append(lambda: j)
+    x = 10
+    comp = [x for x in range(3)]
+    gen = (y * 2 for y in comp)
+    total = sum(gen)
+    again = sum(gen)
+    nested = [[r * c for c in range(r + 1)] for r in range(3)]
+    return [[f() for f in fs], [g() for g in late], x, comp, total, again, nested, j]
+
+
+def t_numpy_broadcasting_and_errors():
+    import numpy as np
+    m = np.array([1.0, 2.0, 4.0])
+    x = np.array([[1.0, 1.0, 1.0], [2.0, 2.0, 2.0], [3.0, 3.0, 3.0]])
+    out = [(x * m).tolist(), (x * m[:, None]).tolist(), (x / m[:, np.newaxis]).tolist(), (m[None, :] + x).shape, (x.sum(axis=1) / m).tolist()]
+    y = np.array([[1.0, 2.0], [3.0, 4.0], [5.0, 6.0]])
+    try:
+        y * m
+    except ValueError:
+        out.append("broadcast error")
+    try:
+        x @ y.T
+    except ValueError:
+        out.append("matmul shape error")
+    out.append((y.T @ x).shape)
+    out.append(np.where(m > 1.5, m, -m).tolist())
+    z = np.zeros_like(y)
+    z[y > 2] = 7
+    out.append(z.tolist())
+    out.append(np.full((2, 2), 3).tolist())
+    out.append(np.hstack([m, [9.0]]).tolist())
+    out.append(np.delete(m, 1).tolist())
+    out.append(np.append(m, 5.0).tolist())
+    out.append(np.clip(m, 1.5, 3.0).tolist())
+    out.append(np.cross(np.array([1.0, 0.0, 0.0]), np.array([0.0, 1.0, 0.0])).tolist())
+    out.append(float(np.dot(m, m)))
+    out.append((np.array([7, -7, 9]) // 2).tolist())
+    out.append((np.array([7, -7, 9]) % 4).tolist())
+    out.append(bool(np.array_equal(m, m.copy())))
+    out.append([m[-1], m[-3], float(m.max()), int(m.argmin()) if hasattr(m, "argmin") else 0])
+    return out
+
+
+def t_numpy_copies_are_independent():
+    import numpy as np
+    a = np.array([[1.0, 2.0], [3.0, 4.0]])
+    b = a.copy()
+    b[0, 0] = 9
+    c = a + 0
+    c[1, 1] = 8
+    d = np.array(a)
+    d *= 2
+    e = a[[0, 1]]
+    e[0, 0] = -1
+    f = a.flatten()
+    f[0] = -5
+    g = a * 1.0
+    g -= 1
+    return [a.tolist(), b.tolist(), c.tolist(), d.tolist(), e.tolist(), f.tolist(), g.tolist()]
+
+
+def t_numpy_inplace_operators_on_attributes():
+    import numpy as np
+    class Box:
+        def __init__(self):
+            self.v = np.zeros(3)
+            self.alias = self.v
+        def bump(self):
+            self.v += 1
+        def rebind(self):
+            self.v = self.v + 1
+    b = Box()
+    b.bump()
+    s1 = (b.v.tolist(), b.alias.tolist(), b.v is b.alias)
+    b.rebind()
+    s2 = (b.v.tolist(), b.alias.tolist(), b.v is b.alias)
+    def scale(arr, k):
+        arr *= k
+    scale(b.v, 3)
+    w = b.v[1:]
+    w -= 1
+    return [s1, s2, b.v.tolist()]
 '''
 
 
